@@ -516,8 +516,10 @@ impl Xot {
 
         for ancestor in self.ancestors(node) {
             for (key, value) in self.namespaces(ancestor).iter() {
+                // a prefix that is redeclared nearer to the node is shadowed
+                // here, but other prefixes can still be bound to the namespace
                 if seen.contains(&key) {
-                    return None;
+                    continue;
                 }
                 seen.insert(key);
                 if *value == namespace {
@@ -527,7 +529,7 @@ impl Xot {
         }
         for (key, value) in self.base_prefixes() {
             if seen.contains(&key) {
-                return None;
+                continue;
             }
             seen.insert(key);
             if value == namespace {
